@@ -94,7 +94,7 @@ func c11Handles(w *World) [][]byte {
 	}
 }
 
-var c11Names = []string{"", ".", "..", "a", "d", "m", "new", nameOfLen(111, 'l'), nameOfLen(112, 'l'), nameOfLen(113, 'l'), nameOfLen(255, 'l'), nameOfLen(256, 'l'), nameOfLen(4096, 'l')}
+var c11Names = []string{"", ".", "..", "a", "d", "m", "new", utf8Name(114), utf8Name(224), nameOfLen(111, 'l'), nameOfLen(112, 'l'), nameOfLen(113, 'l'), nameOfLen(255, 'l'), nameOfLen(256, 'l'), nameOfLen(4096, 'l')}
 var c11NamesShort = []string{"", ".", "..", "a", "d", "x", "m", "new", nameOfLen(112, 'l'), nameOfLen(300, 'l')}
 var c11BaseOffsets = []uint64{0, 1, 4095, 4096, 1 << 32, maxFile - 1, maxFile, 1 << 63, 1<<64 - 4096, 1<<64 - 10, 1<<64 - 1}
 var c11Offsets = c11BaseOffsets
@@ -523,7 +523,7 @@ func init() {
 
 func C11(r *report.Report, tier string) {
 	states := []string{"populated", "tinyfull", "maxsparse", "inodes", "moveddir"}
-	r.Rule = "structural: per procedure the full product of boundary domains - 18 handles (empty, 3/8/15 bytes, root, file, directory, symlink, dead, inode 0 / 2^64-1 / beyond the table / free / wrong generation, a file's and a directory's handle extended to 17 and 64 bytes), 13 names (empty, ., .., existing, new, 111/112/113/255/256/4096 bytes), 11 offsets/sizes up to 2^64-1, counts {0,1,4096,wtmax-1,wtmax,wtmax+1,2^32-1} with data lengths that agree and disagree, cookies, dircount/maxcount, stability and create modes incl. illegal ones; RENAME/LINK over all pairs of handles; in the states populated (objects in recycled inodes) / tiny full disk / maximal sparse file / inode table exhausted but for two numbers (32765 files) / a directory moved into another parent; bytes: for one valid request per procedure (22 NFS + 6 MOUNT) every truncation, an extension, and every substitution of each 32-bit word by {0,1,2,3,63,64,65,0x7fffffff,0xffffffff}, decoded and executed through the registered rpcgen handlers; every call and every mutated message meets the named state on a fresh server instance (snapshot; once just started with cold caches, and - quick: populated state, thorough: all states - once after lookups, reads and listings have filled the inode and name caches) under the controlled scheduler: a reply (or a decode rejection) must arrive - no panic, no deadlock, no runaway (400000 scheduling points per request) - and the sanity script (create, write, read back, lookup, remove, list) must succeed on the same instance afterwards. distinct_nontrivial = distinct (procedure, status) pairs"
+	r.Rule = "structural: per procedure the full product of boundary domains - 18 handles (empty, 3/8/15 bytes, root, file, directory, symlink, dead, inode 0 / 2^64-1 / beyond the table / free / wrong generation, a file's and a directory's handle extended to 17 and 64 bytes), 15 names (empty, ., .., existing, new, 114 and 224 bytes in two-byte characters, 111/112/113/255/256/4096 bytes), 11 offsets/sizes up to 2^64-1, counts {0,1,4096,wtmax-1,wtmax,wtmax+1,2^32-1} with data lengths that agree and disagree, cookies, dircount/maxcount, stability and create modes incl. illegal ones; RENAME/LINK over all pairs of handles; in the states populated (objects in recycled inodes) / tiny full disk / maximal sparse file / inode table exhausted but for two numbers (32765 files) / a directory moved into another parent; bytes: for one valid request per procedure (22 NFS + 6 MOUNT) every truncation, an extension, and every substitution of each 32-bit word by {0,1,2,3,63,64,65,0x7fffffff,0xffffffff}, decoded and executed through the registered rpcgen handlers; every call and every mutated message meets the named state on a fresh server instance (snapshot; once just started with cold caches, and - quick: populated state, thorough: all states - once after lookups, reads and listings have filled the inode and name caches) under the controlled scheduler: a reply (or a decode rejection) must arrive - no panic, no deadlock, no runaway (400000 scheduling points per request) - and the sanity script (create, write, read back, lookup, remove, list) must succeed on the same instance afterwards. distinct_nontrivial = distinct (procedure, status) pairs"
 	var jobs []interface{}
 	var descs []c11Arg
 	for _, st := range states {
